@@ -206,28 +206,63 @@ theorem warning_state_eq_spec (net : Net) (deps : List Dep) (bit : Nat) (c : Cac
       WarnLemmas.CacheOkW net deps bit c' ∧ WarnLemmas.Inv net deps cs' :=
   WarnLemmas.thresholdState_ok net deps bit c cs n hwf.1 hwf.2 hc hi
 
-/-- Every history of deployment-state, next-version and warning-state queries on one fresh chain
-    instance (all caches shared as in `BlockChain`) is answered exactly as the Spec answers. -/
+/-- Every history of queries on one fresh chain instance (all caches shared as in `BlockChain`):
+    deployment states, next-block versions, warning states, `warnUnknownRuleActivations` and
+    `initThresholdCaches` runs — is answered exactly as the Spec answers. The Spec's answers depend on
+    the history only through the sticky `unknownRulesWarned` flag (`Warn.specRun`). -/
 theorem instance_history_eq_spec (net : Net) (deps : List Dep) (qs : List Warn.Q)
     (hq : ∀ q ∈ qs, Wf net q.node) :
-    (Warn.runQs net (Warn.freshInst deps) qs).2 = qs.map (Warn.specAnswer net deps) :=
+    (Warn.runQs net (Warn.freshInst deps) qs).2 = Warn.specRun net deps false qs :=
   (WarnLemmas.runQs_ok net deps qs _ hq (WarnLemmas.instOk_fresh net deps)).1
 
-/-- …hence no answer depends on what was asked before, warnings included. -/
+/-- queries whose answer is a state or a version (everything except the sticky warned flag). -/
+def isStateQuery : Warn.Q → Bool
+  | .dep _ => true
+  | .warn _ _ => true
+  | _ => false
+
+/-- …hence no state or version answer depends on what was asked (or initialised, or warned about)
+    before, warning states included. -/
 theorem instance_query_order_independent (net : Net) (deps : List Dep) (qs₁ qs₂ : List Warn.Q)
-    (q : Warn.Q) (h₁ : ∀ x ∈ qs₁, Wf net x.node) (h₂ : ∀ x ∈ qs₂, Wf net x.node) (hq : Wf net q.node) :
+    (q : Warn.Q) (h₁ : ∀ x ∈ qs₁, Wf net x.node) (h₂ : ∀ x ∈ qs₂, Wf net x.node) (hq : Wf net q.node)
+    (hs : isStateQuery q = true) :
     (Warn.runQ net (Warn.runQs net (Warn.freshInst deps) qs₁).1 q).2 =
       (Warn.runQ net (Warn.runQs net (Warn.freshInst deps) qs₂).1 q).2 := by
   have a₁ := WarnLemmas.runQs_ok net deps qs₁ _ h₁ (WarnLemmas.instOk_fresh net deps)
   have a₂ := WarnLemmas.runQs_ok net deps qs₂ _ h₂ (WarnLemmas.instOk_fresh net deps)
   rw [(WarnLemmas.runQ_ok net deps _ q hq a₁.2).1, (WarnLemmas.runQ_ok net deps _ q hq a₂.2).1]
+  cases q with
+  | dep _ => rfl
+  | warn _ _ => rfl
+  | warnAll _ => simp [isStateQuery] at hs
+  | init _ _ => simp [isStateQuery] at hs
+
+/-- `warnUnknownRuleActivations(n)` sets `unknownRulesWarned` exactly when it was set before or some
+    bit 0..28 is in the warning state Active for block `n` (LockedIn only logs). -/
+theorem warn_flag_eq_spec (net : Net) (deps : List Dep) (i : Warn.Inst) (n : Node) (hwf : Wf net n)
+    (h : WarnLemmas.InstOk net deps i) :
+    (Warn.warnAll net i n).2 = .flag (i.warned || Warn.anyActive net deps n.tail) ∧
+    WarnLemmas.InstOk net deps (Warn.warnAll net i n).1 :=
+  ⟨(WarnLemmas.warnAll_ok net deps i n hwf h).1, (WarnLemmas.warnAll_ok net deps i n hwf h).2.2⟩
+
+/-- `initThresholdCaches` with best tip `n` never fails, leaves every cache sound, and warns iff the
+    chain is current and some unknown bit is Active for the tip. -/
+theorem init_caches_eq_spec (net : Net) (deps : List Dep) (i : Warn.Inst) (n : Node) (cur : Bool)
+    (hwf : Wf net n) (h : WarnLemmas.InstOk net deps i) :
+    (Warn.initCaches net i n cur).2 =
+      .flag (i.warned || (cur && Warn.anyActive net deps n.tail)) ∧
+    WarnLemmas.InstOk net deps (Warn.initCaches net i n cur).1 := by
+  have := WarnLemmas.initCaches_ok net deps i n cur hwf h
+  refine ⟨?_, this.2.2⟩
+  rw [this.1]
+  cases cur <;> simp [Warn.specStep]
 
 /-- The top-level statement with the rule btcd actually enforces on headers: on a network whose
     window is at least 2, every history of queries about blocks whose chains obey the timestamp rule
     is answered exactly as the Spec answers. -/
 theorem instance_history_eq_spec_of_timeRule (net : Net) (deps : List Dep) (qs : List Warn.Q)
     (hW : 2 ≤ net.window) (hq : ∀ q ∈ qs, timeRule q.node = true) :
-    (Warn.runQs net (Warn.freshInst deps) qs).2 = qs.map (Warn.specAnswer net deps) :=
+    (Warn.runQs net (Warn.freshInst deps) qs).2 = Warn.specRun net deps false qs :=
   instance_history_eq_spec net deps qs (fun q h => ⟨hW, timeRule_implies_mtpMono _ (hq q h)⟩)
 
 example : timeRule [⟨2, 0x20000001, 1002⟩, ⟨1, 0x20000001, 1001⟩, ⟨0, 0x20000000, 1000⟩] = true := by decide
